@@ -22,7 +22,13 @@ def gen_run(tier, fault=False):
                 "weight": draw(wass.weight_specs())}
         if fault:
             o["tol"] = draw(st.sampled_from([None, 1e-12, 1e-12, 1e-3]))
-            case["fault_at"] = draw(st.integers(1, o["num_iter"]))
+            case["fault_point"] = draw(st.sampled_from(["linear_solve", "linear_solve", "face_weight",
+                                                        "dissipation", "anderson"]))
+            if case["fault_point"] == "anderson" and not o["aa_depth"]:
+                o["aa_depth"] = draw(st.sampled_from([2, 5]))
+                o["aa_restart"] = draw(st.sampled_from([None, 3]))
+            hi = o["num_iter"] * (3 if case["fault_point"] in ("face_weight", "dissipation") else 1)
+            case["fault_at"] = draw(st.integers(1, hi))
         return case
 
     return strat()
@@ -49,7 +55,7 @@ def _tags(case, a, b):
             "aa": bool(o.get("aa_depth"))}
 
 
-def _run(case, fault_at=None):
+def _run(case, fault_at=None, fault_point="linear_solve"):
     grid, o = case["grid"], case["opt"]
     a, b = wass.make_masses(grid["shape"], case["mass"])
     tags = _tags(case, a, b)
@@ -62,7 +68,7 @@ def _run(case, fault_at=None):
             w1, g = wass.make_solver(grid, o, wimg)
             cap = wass.capture_solve(w1)
             wass.watch_mobility(w1, tags)
-            st_ = wass.inject_fault(w1, fault_at) if fault_at is not None else None
+            st_ = wass.inject_fault(w1, fault_at, fault_point) if fault_at is not None else None
             d, info = w1(i1, i2)
         except wass.InjectedFault:
             return None, tags, a, b, None, None, None  # fault hit a solve outside the iteration
@@ -233,18 +239,19 @@ def check_status_honest(case):
 
 
 def check_fault_flagged(case):
-    out, tags, a, b, g, wimg, ref = _run(case, fault_at=case["fault_at"])
-    tags = dict(tags, fault_at=int(case["fault_at"]), first_iteration=case["fault_at"] == 1)
+    point = case.get("fault_point", "linear_solve")
+    out, tags, a, b, g, wimg, ref = _run(case, fault_at=case["fault_at"], fault_point=point)
+    tags = dict(tags, fault_at=int(case["fault_at"]), first_iteration=case["fault_at"] == 1, fault_point=point)
     if out is None:
         return Outcome(False, _key(case), _labels(case, ("fault-outside-iteration",)), status="skipped")
     d, info, cap, w1, st_ = out
     if not st_["fired"]:
         return Outcome(False, _key(case), _labels(case, ("fault-not-reached",)), status="skipped")
     its = len(info["convergence_history"]["distance"])
-    which = "first" if case["fault_at"] == 1 else "later"
+    which = ("first" if case["fault_at"] == 1 else "later") if point == "linear_solve" else point
     if bool(info["converged"]):
-        raise Violation(f"fault-reported-converged", f"inner linear solve failed in iteration "
-                        f"{case['fault_at'] - 1} of {case['opt']['num_iter']} but converged=True "
+        raise Violation(f"fault-reported-converged", f"inner step ({point}, call {case['fault_at']}) failed "
+                        f"during a run of {case['opt']['num_iter']} iterations but converged=True "
                         f"({case['opt']['method']})", tags)
     u = cap["solution"][: ref.num_faces]
     if not np.all(np.isfinite(u)):
@@ -254,10 +261,10 @@ def check_fault_flagged(case):
         raise Violation(f"fault-mass-balance:{which}", f"after a failure in iteration {case['fault_at'] - 1} the "
                         f"returned flux violates the mass balance by {res:.3e}", tags)
     _cost_matches(case, ref, u, float(d), wimg, tags, f"fault-distance-not-cost:{which}")
-    if its != case["fault_at"] - 1:
+    if point == "linear_solve" and its != case["fault_at"] - 1:
         raise Violation("fault-history", f"{its} iterations recorded, failure was injected in iteration "
                         f"{case['fault_at'] - 1}", tags)
-    return Outcome(True, _key(case), _labels(case, (f"fault-{which}",)))
+    return Outcome(True, _key(case) + [point], _labels(case, (f"fault-{which}",)))
 
 
 def enum_combos(tier):
